@@ -100,17 +100,25 @@ Proof.
   exists (P "/out/b.js"). vm_compute. split; [reflexivity | discriminate].
 Qed.
 
-(* the path of the failed write is in the hash table: the next rebuild that
-   does not produce it deletes a path no rebuild of the context ever wrote *)
-Lemma deletes_only_own_under_write_failure_refuted_w :
-  exists opt d0 oc1 wf oc2 r1 r2,
-    trace_io phys_id true opt (init d0) [(oc1, wf); (oc2, [])] = [r1; r2] /\
-    exists p, In (EDelete p) (r_effects r2) /\ ~ In p (written_paths [r1]).
+(* before b32af0b the path of a failed write stayed in the hash table: the next
+   rebuild that did not produce it deleted a path no rebuild of the context
+   ever wrote *)
+Lemma before_fix_b32af0b_deleted_never_written_path_w :
+  exists opt d0 oc1 wf oc2,
+    let st1 := fst (step_io_before_b32af0b phys_id true opt (init d0) oc1 wf) in
+    let r1 := snd (step_io_before_b32af0b phys_id true opt (init d0) oc1 wf) in
+    let r2 := snd (step_io_before_b32af0b phys_id true opt st1 oc2 []) in
+    exists p, In (EDelete p) (r_effects r2) /\ ~ In p (writes_of (r_effects r1)).
 Proof.
   exists w_opts, [(P "/src/a.js", [1]); (P "/src/b.js", [2])], w_oc_ab, [P "/out/a.js"], w_oc_b.
-  eexists. eexists. split; [vm_compute; reflexivity|].
   exists (P "/out/a.js"). vm_compute. split; [left; reflexivity|]. intros [H|[]]. discriminate.
 Qed.
+(* the same history on the current step deletes nothing *)
+Lemma failed_write_path_is_forgotten_w :
+  let st1 := fst (step_io phys_id true w_opts (init [(P "/src/a.js", [1]); (P "/src/b.js", [2])]) w_oc_ab [P "/out/a.js"]) in
+  keys (latest st1) = [P "/out/b.js"] /\
+  deletes_of (r_effects (snd (step_io phys_id true w_opts st1 w_oc_b []))) = [].
+Proof. vm_compute. split; reflexivity. Qed.
 
 (* ---------- the path layer ---------- *)
 (* a template without any parent-directory segment, yet the output leaves the
@@ -124,18 +132,6 @@ Lemma template_without_dotdot_escapes_refuted_w :
 Proof.
   exists (P "[name]/x"), (P "/w/out"), (P "/w/src"), (P "/w/src/...js"), (P ".js").
   split; [vm_compute; reflexivity|]. vm_compute. discriminate.
-Qed.
-
-(* the duplicate-path rule keeps the first of two case variants: no error,
-   and the exact path of the second file is not among the files written *)
-Lemma dedupe_keeps_exact_path_refuted_w :
-  exists outs kept o,
-    dedupe [] outs = (kept, []) /\ In o outs /\ ~ In (o_path o) (map o_path kept).
-Proof.
-  exists [mkOut (P "/out/A.txt") [5] 105 true; mkOut (P "/out/a.txt") [5] 105 true].
-  eexists. exists (mkOut (P "/out/a.txt") [5] 105 true).
-  split; [vm_compute; reflexivity|]. split; [right; left; reflexivity|].
-  vm_compute. intros [H|[]]. discriminate.
 Qed.
 
 (* a Unix directory whose NAME contains backslashes: the '\' -> '/' replacement
